@@ -75,7 +75,7 @@ func NewNumericRangeSearcher(ctx context.Context, indexReader index.IndexReader,
 
 	// FIXME hard-coded precision, should match field declaration
 	termRanges := splitInt64Range(minInt64, maxInt64, 4)
-	terms := termRanges.Enumerate(isIndexed)
+	terms := termRanges.enumerateTerms(isIndexed)
 	if fieldDict != nil {
 		if fd, ok := fieldDict.(index.FieldDict); ok {
 			if err = fd.Close(); err != nil {
@@ -187,6 +187,43 @@ func (tr termRanges) Enumerate(filter filterFunc) [][]byte {
 	for _, tri := range tr {
 		trie := tri.Enumerate(filter)
 		rv = append(rv, trie...)
+	}
+	return rv
+}
+
+// enumerateTerms is Enumerate limited to byte strings that can be prefix
+// coded terms. Enumerate steps through every byte value between the two
+// ends of a range, but after the leading shift byte a prefix coded term
+// only uses 7 bits per byte. Where the ends differ by a carry over
+// several bytes (e.g. the range [0.9999999999999999, 1], or a date range
+// of a few nanoseconds around a multiple of 2^28 ns) that is up to 2^56
+// impossible terms, each of them allocated, and the search never returns.
+func (tr termRanges) enumerateTerms(filter filterFunc) [][]byte {
+	var rv [][]byte
+	for _, tri := range tr {
+		next := tri.startTerm
+		for bytes.Compare(next, tri.endTerm) <= 0 {
+			if filter == nil || filter(next) {
+				rv = append(rv, next)
+			}
+			next = incrementPrefixCoded(next)
+		}
+	}
+	return rv
+}
+
+// incrementPrefixCoded returns the next prefix coded term of the same
+// shift: the bytes after the first one are base-128 digits.
+func incrementPrefixCoded(in []byte) []byte {
+	rv := make([]byte, len(in))
+	copy(rv, in)
+	for i := len(rv) - 1; i >= 0; i-- {
+		rv[i] = rv[i] + 1
+		if i > 0 && rv[i] >= 0x80 {
+			rv[i] = 0
+			continue
+		}
+		break
 	}
 	return rv
 }
